@@ -22,6 +22,11 @@ open HD
 `[minBet, stack)` / `[wager + previous raise, stack)` are the ones `aiMoves` transcribes; any other shape fails here -/
 def expectedBotRequestAI : List String := ["player := gs.Players[playerIdx]", "if len(player.AllowedActions) == 0 { return nil }", "action := player.AllowedActions[0]", "if len(player.AllowedActions) > 1 { action = br.calcAction(player.AllowedActions) }", "chips := int64(0)", "switch action { case \"bet\": minBet := gs.Status.MiniBet if player.InitialStackSize <= minBet { return br.actions.Bet(player.InitialStackSize) } chips = rand.Int63n(player.InitialStackSize-minBet) + minBet err := br.actions.Bet(chips) if err != nil { return err } br.updateWagerAction(pokertable.WagerAction_Bet, chips) return nil case \"raise\": maxChipLevel := player.InitialStackSize minChipLevel := gs.Status.CurrentWager + gs.Status.PreviousRaiseSize if maxChipLevel <= minChipLevel { err := br.actions.Raise(maxChipLevel) if err != nil { return err } br.updateWagerAction(pokertable.WagerAction_Raise, maxChipLevel) return nil } chips = rand.Int63n(maxChipLevel-minChipLevel) + minChipLevel err := br.actions.Raise(chips) if err != nil { return err } br.updateWagerAction(pokertable.WagerAction_Raise, chips) return nil case \"call\": wager := int64(0) gamePlayerIdx := br.tableInfo.FindGamePlayerIdx(br.playerID) if gamePlayerIdx >= 0 && br.tableInfo != nil && br.tableInfo.State.GameState != nil && gamePlayerIdx < len(br.tableInfo.State.GameState.Players) { wager = br.tableInfo.State.GameState.Status.CurrentWager - br.tableInfo.State.GameState.GetPlayer(gamePlayerIdx).Wager } err := br.actions.Call() if err != nil { return err } br.updateWagerAction(pokertable.WagerAction_Call, wager) return nil case \"check\": err := br.actions.Check() if err != nil { return err } br.updateWagerAction(pokertable.WagerAction_Check, 0) return nil case \"allin\": wager := int64(0) gamePlayerIdx := br.tableInfo.FindGamePlayerIdx(br.playerID) if gamePlayerIdx >= 0 && br.tableInfo != nil && br.tableInfo.State.GameState != nil && gamePlayerIdx < len(br.tableInfo.State.GameState.Players) { wager = br.tableInfo.State.GameState.GetPlayer(gamePlayerIdx).StackSize } err := br.actions.Allin() if err != nil { return err } br.updateWagerAction(pokertable.WagerAction_AllIn, wager) return nil }", "err := br.actions.Fold()", "if err != nil { return err }", "br.updateWagerAction(pokertable.WagerAction_Fold, 0)", "return nil"]
 
+/-- deliveries to one actor are queued behind its mutex — one at a time, none dropped (regenerated from actor/actor.go);
+the runners' staleness filters and "acts when asked" rely on it -/
+theorem C18_delivery_fact : Facts.actorUpdate =
+    ["a.mu.Lock()", "defer a.mu.Unlock()", "err := a.runner.UpdateTableState(tableInfo)", "if err != nil { return err }", "return nil"] := by decide
+
 /-- `botRunner.UpdateTableState` as the source has it now: eliminated / not seated-in bots do not play, a state of the
 same hand that is not newer than the last one seen is ignored *and every newer state is remembered*, nothing happens
 unless the table is playing and the bot is dealt in — what `botReacts` transcribes -/
